@@ -30,6 +30,9 @@ MASKS_QUICK = (0x01, 0x80, 0xFF)
 # ---------------------------------------------------------------------------------------------------------
 
 
+PAD_K = 70000
+
+
 def vmx_cfg(seed: int, k: int) -> dict:
     rng = rng_for(seed, "vmxcfg", k)
     ciphers, macs, kdfs = sorted(W.CIPHERS), sorted(W.MACS), sorted(W.KDFS)
@@ -46,6 +49,9 @@ def vmx_cfg(seed: int, k: int) -> dict:
         "seed": rng.getrandbits(40), "text_len": 40 + (k * 7 + rng.randrange(16)) % 64,
     }
     cfg["which"] = rng.randrange(cfg["npairs"])
+    if k >= PAD_K:
+        cfg["text_len"] = 96  # a cleartext that fills its last block: the final ciphertext block holds padding only
+        cfg["rounds"] = min(cfg["rounds"], 3)
     return cfg
 
 
@@ -136,6 +142,21 @@ def _c15_plan(tier, verif_seed):
             # the tail of a MAC-protected value is lost (any number of bytes, not only whole cipher blocks)
             plan.append((kk, ["trunc_data", nb]))
             plan.append((kk, ["trunc_wrap", nb]))
+    # the final ciphertext block of a cleartext that fills its last block decrypts to padding only, which the MAC (over the cleartext)
+    # does not cover: every byte of that block under every one of the 255 masks (a reader that only looks at the last padding byte
+    # accepts about one in 256 of these)
+    for j in range(3 if tier == "quick" else 9):
+        kk = PAD_K + j * 5
+        cfg = vmx_cfg(verif_seed, kk)
+        _, _, pairs, blobs, data_blob = build_vmx(cfg)
+        macsize = W.MACS[cfg["mac"]][1]
+        for pos in range(len(data_blob) - macsize - 16, len(data_blob) - macsize):
+            for m in range(1, 256):
+                plan.append((kk, ["data", pos, m]))
+        wb = blobs[cfg["which"]]
+        for pos in range(len(wb) - macsize - 16, len(wb) - macsize):
+            for m in range(1, 256, 4):
+                plan.append((kk, ["wrap", pos, m]))
     return plan
 
 
